@@ -149,8 +149,71 @@ pub fn run(cli: &Cli, rep: &Report) {
         },
     );
 
+    // unit sizes above 1 MiB for the multi-threaded writers (real threads; sizes do not depend on the schedule): configured
+    // 1.5 MiB with a small dictionary, and configured 1 raised to a 2 MiB dictionary; input = two full units and a rest
+    {
+        use lzma_rust2::{LZIPOptions, LZIPWriterMT, LZMA2Options, LZMA2WriterMT};
+        use std::num::NonZeroU64;
+        for (lzip, dictb, configured, effective) in [(true, 65536u32, 3u64 << 19, 3usize << 19), (true, 2 << 20, 1, 2 << 20), (false, 65536, 3 << 19, 3 << 19), (false, 2 << 20, 1, 2 << 20)] {
+            let desc = || format!("C18|mt-large-units|{}|dict{}|size{}", if lzip { "lzip" } else { "lzma2" }, dictb, configured);
+            if !cli.selected_with(desc) {
+                continue;
+            }
+            rep.add("evaluations", 1);
+            let n = 2 * effective + 12_345;
+            let input = gen::build(&[Seg::C(n)], 9);
+            let lo = Opts { dict: dictb, ..Opts::small() }.lzma();
+            let r = catch(|| -> std::io::Result<Vec<u64>> {
+                if lzip {
+                    let mut w = LZIPWriterMT::new(Vec::new(), LZIPOptions { lzma_options: lo.clone(), member_size: NonZeroU64::new(configured) }, 2)?;
+                    w.write_all(&input)?;
+                    let f = w.finish()?;
+                    Ok(lzip_member_sizes(&f))
+                } else {
+                    let mut w = LZMA2WriterMT::new(Vec::new(), LZMA2Options { lzma_options: lo.clone(), chunk_size: NonZeroU64::new(configured) }, 2)?;
+                    w.write_all(&input)?;
+                    let f = w.finish()?;
+                    // uncompressed sizes of the independent units (a unit starts at a chunk with a dictionary reset)
+                    let mut sizes: Vec<u64> = vec![];
+                    let mut i = 0;
+                    while i < f.len() && f[i] != 0 {
+                        let c = f[i];
+                        let (un, step) = if c >= 0x80 {
+                            let un = (((c & 0x1F) as u64) << 16) + u16::from_be_bytes([f[i + 1], f[i + 2]]) as u64 + 1;
+                            let cs = u16::from_be_bytes([f[i + 3], f[i + 4]]) as usize + 1;
+                            (un, 5 + if c >= 0xC0 { 1 } else { 0 } + cs)
+                        } else {
+                            let un = u16::from_be_bytes([f[i + 1], f[i + 2]]) as u64 + 1;
+                            (un, 3 + un as usize)
+                        };
+                        if c >= 0xE0 || c == 0x01 || sizes.is_empty() {
+                            sizes.push(0);
+                        }
+                        *sizes.last_mut().unwrap() += un;
+                        i += step;
+                    }
+                    Ok(sizes)
+                }
+            });
+            let mk = |kind: &str, site: &str, detail: String| rep.violation(Violation::new(kind, site, desc()).attr("family", if lzip { "lzip" } else { "lzma2" }).attr("writes", "mt-large").detail(detail));
+            match r {
+                Err(p) => mk("panic", &p.site(), p.msg),
+                Ok(Err(e)) => mk("error", "the multi-threaded writer failed", e.to_string()),
+                Ok(Ok(sizes)) => {
+                    let want = vec![effective as u64, effective as u64, 12_345];
+                    if sizes != want {
+                        mk("unit-size", "the multi-threaded writer did not cut units of exactly the configured size (raised to the dictionary size)", format!("units {:?}, expected {:?}", &sizes[..sizes.len().min(6)], want));
+                    } else {
+                        rep.nontrivial(hash_desc(&desc()));
+                    }
+                }
+            }
+        }
+    }
+
     // .lzma expected size
-    let mut ecases: Vec<(usize, i64, Vec<usize>)> = vec![];
+    // (n, expected, write partition, use_header, use_end_marker): the full constructor takes the two flags independently
+    let mut ecases: Vec<(usize, i64, Vec<usize>, bool, bool)> = vec![];
     for n in [0usize, 1, 2, 300, 5000] {
         for delta in [-2i64, -1, 0, 1, 2] {
             let e = n as i64 + delta;
@@ -164,7 +227,9 @@ pub fn run(cli: &Cli, rep: &Report) {
                 parts.push(vec![n / 2, n - n / 2]);
             }
             for p in parts {
-                ecases.push((n, e, p));
+                for (hdr, marker) in [(true, false), (true, true), (false, false), (false, true)] {
+                    ecases.push((n, e, p.clone(), hdr, marker));
+                }
             }
         }
     }
@@ -174,8 +239,21 @@ pub fn run(cli: &Cli, rep: &Report) {
         0,
         |_| (0u64, Vec::<u64>::new()),
         |st, i| {
-            let (n, e, parts) = &ecases[i];
-            let desc = || format!("C18|lzma-expected|n{}|e{}|{}", n, e, parts.iter().map(|p| p.to_string()).collect::<Vec<_>>().join("+"));
+            let (n, e, parts, hdr, marker) = &ecases[i];
+            let desc = || {
+                format!(
+                    "C18|lzma-expected|n{}|e{}|{}{}",
+                    n,
+                    e,
+                    parts.iter().map(|p| p.to_string()).collect::<Vec<_>>().join("+"),
+                    match (hdr, marker) {
+                        (true, false) => "",
+                        (true, true) => "|hdr+marker",
+                        (false, false) => "|raw",
+                        (false, true) => "|raw+marker",
+                    }
+                )
+            };
             if !cli.selected_with(desc) {
                 return;
             }
@@ -183,7 +261,7 @@ pub fn run(cli: &Cli, rep: &Report) {
             let input = gen::build(&[Seg::C(*n)], 4);
             let mk = |kind: &str, site: &str, detail: String| rep.violation(Violation::new(kind, site, desc()).attr("family", "lzma").attr("writes", "-").detail(detail));
             let r = catch(|| {
-                let mut w = LZMAWriter::new_use_header(Vec::new(), &o.lzma(), Some(*e as u64))?;
+                let mut w = LZMAWriter::new(Vec::new(), &o.lzma(), *hdr, *marker, Some(*e as u64))?;
                 let mut off = 0;
                 let mut write_err = None;
                 for p in parts {
@@ -218,11 +296,12 @@ pub fn run(cli: &Cli, rep: &Report) {
                     } else {
                         match (write_err, fin) {
                             (None, Some(Ok(bytes))) => {
-                                let hdr = u64::from_le_bytes(bytes[5..13].try_into().unwrap());
-                                if hdr != *n as u64 {
-                                    mk("header-size", "header does not carry the number of bytes written", format!("header says {hdr}, wrote {n}"));
+                                let declared = if *hdr { u64::from_le_bytes(bytes[5..13].try_into().unwrap()) } else { *n as u64 };
+                                if declared != *n as u64 {
+                                    mk("header-size", "header does not carry the number of bytes written", format!("header says {declared}, wrote {n}"));
                                 } else {
-                                    match codec::decode(&Container::LzmaHdrSize, &o, &bytes, *n) {
+                                    let cont = if *hdr { Container::LzmaHdrSize } else { Container::LzmaRawSize };
+                                    match codec::decode(&cont, &o, &bytes, *n) {
                                         Ok(d) if d == input => st.1.push(hash_desc(&desc())),
                                         other => mk("undecodable", "stream with declared size does not decode to the input", format!("{:?}", other.map(|d| d.len()).map_err(|e| e.to_string()))),
                                     }
